@@ -21,6 +21,64 @@ func runC04(r *harness.Run) {
 		"__index/__newindex as function and as table chains of depth 1-3 and 99/100/101 with key present/absent/stored-false; the complete product of 1-2 (thorough: 3) linked tables x per level key absent/present/false x __index link none/table/function x __newindex link none/table/logging function/rawsetting function x key form, driven by a fixed read/write/erase sequence with raw dumps (F-chain); __call as statement, argument, tail call, iterator; __tostring, __metatable, rawget/rawset/rawequal. Every handler logs event, argument identities and order through emit and returns two values. Each program runs on gopher-lua and the reference interpreter"
 	r.Assumptions = []string{"luaref implements the manual's §2.8 pseudo-code", "not judged: __len on tables, the second argument of __unm, __gc/__mode, callable tables as handlers, arithmetic on the string metatable"}
 	pr.runGens(gens, []string{"F-misc", "F-callmeta", "F-index", "F-chain", "F-cmp", "F-arith"})
+	// handlers are entered through frames that the interpreter builds on the value stack: the same
+	// selection rules under a registry that reallocates on every growth step (one slot at a time,
+	// and in steps of 3 from 16), so that a handler call falls on a reallocation at every alignment
+	for _, cfg := range []struct {
+		name string
+		opts lua.Options
+	}{
+		// (NewState replaces a RegistrySize below 128 by the default, so 128 is the smallest start)
+		{"grow1-from128", lua.Options{RegistrySize: 128, RegistryMaxSize: 1 << 20, RegistryGrowStep: 1}},
+		{"grow3-from128", lua.Options{RegistrySize: 128, RegistryMaxSize: 1 << 20, RegistryGrowStep: 3}},
+	} {
+		pg := &progRunner{r: r, prop: "C04", opts: cfg.opts, sigPrefix: cfg.name + "/"}
+		pg.runGens(map[string]Gen{"F-misc": genMetaMisc(false), "F-callmeta": genMetaCall(false), "F-index": genMetaIndex(false), "F-chain": genMetaChain(false), "F-callalign": genCallAlign()},
+			[]string{"F-misc", "F-callmeta", "F-index", "F-chain", "F-callalign"})
+	}
+}
+
+// genCallAlign: a __call object (with 0-3 arguments, as call, tail call, pcall target) invoked from a
+// frame that holds 95..140 locals, so that under a registry that starts at 128 slots and grows
+// stepwise the frame set-up for the handler falls on every alignment relative to the capacity.
+func genCallAlign() Gen {
+	return func(yield func(*Prog)) {
+		for nloc := 95; nloc <= 140; nloc++ {
+			for nargs := 0; nargs <= 3; nargs++ {
+				for _, form := range []string{"call", "tail", "pcall"} {
+					nloc, nargs, form := nloc, nargs, form
+					yield(&Prog{Family: "F-callalign", Shape: fmt.Sprintf("locals=%d/args=%d/%s", nloc, nargs, form), Mk: func() *Block {
+						h := Func(nil, true, Emit(Str("handler"), CallN("select", Str("#"), Vararg()), Vararg()), Return(Str("r1"), Str("r2")))
+						st := []Stat{Local1("obj", CallN("setmetatable", TableE(), TableE(NamedField("__call", h)))), Emit(Str("ids"), Name("obj"))}
+						var locs []string
+						var vals []Expr
+						for i := 0; i < nloc; i++ {
+							locs = append(locs, fmt.Sprintf("l%d", i))
+							vals = append(vals, Num(float64(i)))
+						}
+						var body []Stat
+						if nloc > 0 {
+							body = append(body, &LocalStat{Names: locs, Exprs: vals})
+						}
+						var args []Expr
+						for i := 0; i < nargs; i++ {
+							args = append(args, Str(fmt.Sprintf("a%d", i)))
+						}
+						switch form {
+						case "call":
+							body = append(body, Local(names("x", "y"), Call(Name("obj"), args...)), Return(Name("x"), Name("y")))
+						case "tail":
+							body = append(body, Return(Call(Name("obj"), args...)))
+						case "pcall":
+							body = append(body, Return(CallN("pcall", append([]Expr{Name("obj")}, args...)...)))
+						}
+						st = append(st, LocalFunc("caller", Func(nil, false, body...)), Emit(Str("result"), CallN("caller")))
+						return Blk(st...)
+					}})
+				}
+			}
+		}
+	}
 }
 
 func dotted(path ...string) Expr {
